@@ -110,9 +110,16 @@ func Register[T any](el *EventLoop, callback EventHandler[T], opts ...HandlerOpt
 		el.handlers[t][i] = h
 	}
 
+	// the slot may be reused by a later registration once it is released,
+	// so a repeated call must not release it again.
+	released := false
 	return func() {
 		el.mut.Lock()
 		defer el.mut.Unlock()
+		if released {
+			return
+		}
+		released = true
 		el.handlers[t][i].callback = nil
 	}
 }
